@@ -129,7 +129,11 @@ func whichAppend(rt reflect.Type, omitEmpty bool) (f appendFunc, af appendFunc) 
 	return
 }
 
-func newFinfo(f *reflect.StructField, key string, omitEmpty, asString, pretty, embedded bool) *finfo {
+// newFinfo builds the plan entry of a field. omitEmpty is the flag of the
+// field itself (the OmitEmpty option or an omitempty tag), nestOmit the flag
+// the plans of nested struct types are built with (the option only: a tag
+// applies to the field that carries it, not to the fields of its type).
+func newFinfo(f *reflect.StructField, key string, omitEmpty, nestOmit, asString, pretty, embedded bool) *finfo {
 	fi := finfo{
 		rt:     f.Type,
 		key:    key,
@@ -208,7 +212,7 @@ func newFinfo(f *reflect.StructField, key string, omitEmpty, asString, pretty, e
 			fi.iAppend = appendString
 		}
 	case reflect.Struct:
-		fi.elem = getTypeStruct(fi.rt, true, omitEmpty)
+		fi.elem = getTypeStruct(fi.rt, true, nestOmit)
 		fi.Append = appendJustKey
 		fi.iAppend = appendJustKey
 	case reflect.Ptr:
@@ -217,7 +221,7 @@ func newFinfo(f *reflect.StructField, key string, omitEmpty, asString, pretty, e
 			et = et.Elem()
 		}
 		if et.Kind() == reflect.Struct {
-			fi.elem = getTypeStruct(et, false, omitEmpty)
+			fi.elem = getTypeStruct(et, false, nestOmit)
 		}
 		if omitEmpty {
 			fi.Append = appendPtrNotEmpty
@@ -242,7 +246,7 @@ func newFinfo(f *reflect.StructField, key string, omitEmpty, asString, pretty, e
 			et = et.Elem()
 		}
 		if et.Kind() == reflect.Struct {
-			fi.elem = getTypeStruct(et, embedded, omitEmpty)
+			fi.elem = getTypeStruct(et, embedded, nestOmit)
 		}
 		if omitEmpty {
 			fi.Append = appendSliceNotEmpty
